@@ -64,6 +64,10 @@ def table_locals(fn):
 def wl_row(t, fn=None):
     """t = watch_list_x[L] (Index or IndexMut)"""
     t = strip(t)
+    while isinstance(t, tuple) and t and t[0] in ("ref", "deref") and len(t) > 1 and isinstance(t[1], tuple):
+        t = strip(t[1])
+    if isinstance(t, tuple) and t and t[0] in ("gamma", "phi") and t[2]:     # `if pol { &neg[v] } else { &pos[v] }`
+        return all(wl_row(v, fn) for _, v in t[2])
     if not (isinstance(t, tuple) and t and t[0] == "call" and t[1].name in ("index", "index_mut") and len(t[2]) == 2):
         return False
 
@@ -82,8 +86,12 @@ def space(fn, t, depth=0):
     if t[0] in ("gamma", "phi"):
         ds = {space(fn, v, depth + 1) for _, v in t[2]}
         return ds.pop() if len(ds) == 1 else None
-    if t[0] == "call" and t[1].name in ("index", "index_mut") and len(t[2]) == 2 and wl_row(t[2][0]):
+    if t[0] == "call" and t[1].name in ("index", "index_mut") and len(t[2]) == 2 and wl_row(t[2][0], fn):
         return "Clause"
+    if t[0] == "field" and t[2] == "0" and isinstance(t[1], tuple) and t[1][0] == "as" and t[1][2] == "Some":
+        g = strip(t[1][1])
+        if mir.is_call(g, "get") and len(g[2]) == 2 and wl_row(g[2][0], fn):
+            return "Clause"                                              # `let Some(&c) = row.get(pos)`
     if t[0] == "mu":
         if t[2] in cursor_locals(fn):
             return "Pos"
@@ -121,6 +129,13 @@ def cursor_locals(fn):
             for a, o in ((sides[0], sides[1]), (sides[1], sides[0])):
                 if a[0] == "mu" and any(mir.is_call(x, "len") and wl_row(x[2][0], fn) for x in mir.subterms(o)):
                     res.add(a[2])
+    for cs in te.calls:
+        if cs.callee.name == "get" and len(cs.args) == 2 and wl_row(cs.args[0], fn):
+            a = strip(cs.args[1])
+            # `row.get(i)` is the bounds test and the access in one: None exactly when i >= len(row)
+            if a[0] == "mu" and any(isinstance(c, tuple) and c and c[0] == "discr" and strip(c[1]) == strip(cs.term)
+                                    for c in (strip(c_) for c_, _ in te.switch_term.values())):
+                res.add(a[2])
     _CUR[id(fn)] = res
     return res
 
@@ -146,6 +161,8 @@ def run(prog):
                     want, arg, what = "Pos", cs.args[1], "watch list row"
                 elif mir.is_call(strip(cs.args[0]), "clauses"):
                     want, arg, what = "Clause", cs.args[1], "clause vector"
+            elif nm == "get" and len(cs.args) == 2 and wl_row(cs.args[0], fn):
+                want, arg, what = "Pos", cs.args[1], "watch list row"
             elif nm in ("contains", "push") and len(cs.args) == 2 and wl_row(cs.args[0], fn):
                 want, arg, what = "Clause", cs.args[1], "%s on a watch list row" % nm
             elif nm in ("swap_remove", "remove") and len(cs.args) == 2 and wl_row(cs.args[0], fn):
@@ -177,8 +194,10 @@ def run(prog):
                             "%s takes a %s" % (what, d) if ok else
                             "%s expects a %s but is given a %s (%s): the two coincide only when a clause's index equals its "
                             "position in the scanned watch list" % (what, NAMES[want], NAMES[d], show(arg)[:70])))
-    if n < 18:
-        raise CheckerError("WS: only %d watch-list uses classified (expected >= 18)" % n)
+    if n < 12:
+        # shared accessors legitimately shrink the number of sites (the registry floors count what is left); fewer
+        # than a dozen classified uses means the scheme itself was not found
+        raise CheckerError("WS: only %d watch-list uses classified (expected >= 12)" % n)
     out += distinct_watches(prog)
     return out
 
